@@ -123,7 +123,8 @@ class Run:
         self.n_violations = 0
         self.inconclusive: List[str] = []
         self.known = load_known_findings()
-        self.replay_root = os.path.join(VERIF, 'replay', prop)
+        self.replay_root = os.path.join(os.environ.get('VERIF_REPLAY_DIR') or
+                                        os.path.join(VERIF, 'replay'), prop)
         self.max_replays_per_class = 2
         self.required_counters: List[str] = []
         self.extra: Dict[str, Any] = {}
@@ -276,11 +277,12 @@ class Run:
             'wall_s': round(time.time() - self.t0, 2),
             'violations': self.n_violations,
         }
-        os.makedirs(os.path.join(VERIF, 'evidence'), exist_ok=True)
-        tmp = os.path.join(VERIF, 'evidence', f'.{self.prop}.json.tmp')
+        evdir = os.environ.get('VERIF_EVIDENCE_DIR') or os.path.join(VERIF, 'evidence')
+        os.makedirs(evdir, exist_ok=True)
+        tmp = os.path.join(evdir, f'.{self.prop}.json.tmp')
         with open(tmp, 'w', encoding='utf-8') as fh:
             json.dump(evidence, fh, indent=1, ensure_ascii=False)
-        os.replace(tmp, os.path.join(VERIF, 'evidence', f'{self.prop}.json'))
+        os.replace(tmp, os.path.join(evdir, f'{self.prop}.json'))
         if self._scratch and not os.environ.get('VERIF_KEEP'):
             shutil.rmtree(self._scratch, ignore_errors=True)
 
